@@ -304,3 +304,7 @@ mod tests {
         storage.extend(&(2000 as i16).to_le_bytes());
     }
 }
+
+// verification hook: harness text lives outside the repository (see MANIFEST.hooks)
+#[cfg(any(kani, sudachi_verif))]
+include!(concat!(env!("SUDACHI_VERIF_DIR"), "/dic__grammar.rs"));
